@@ -130,14 +130,14 @@ def c06() -> List[V]:
           rule="THE-OUTCOME"),
         V("wrong-exception", S, "The._evaluate_", "raise NoSolutionFound(self._child_)", "raise MultipleSolutionFound(None, None)",
           rule="THE-OUTCOME"),
-        V("false-flag-sticks", S, "The._evaluate_", "        if result is None:\n            self._is_false_ = True",
-          "        self._is_false_ = True", rule="THE-OUTCOME"),
+        V("false-flag-sticks", S, "The._evaluate_", "        self._is_false_ = result is None\n",
+          "        self._is_false_ = True\n", rule="THE-OUTCOME"),
         V("the-reset-on-success-only", S, "The.evaluate", "        finally:\n            # also when no solution or multiple solutions were found, or user code raised.\n            self._reset_cache_()",
           "        finally:\n            pass\n        self._reset_cache_()", rule="RESET-ALL-EXITS"),
         V("the-own-projection", S, "The.evaluate", "return self._process_result_(result)", "return result[self._var_._id_].value",
           rule="PROJECTION-SHARED"),
-        V("twin-flag-computed", S, "The._evaluate_", "        if result is None:\n            self._is_false_ = True",
-          "        self._is_false_ = result is None", kind="twin"),
+        V("twin-flag-computed", S, "The._evaluate_", "        self._is_false_ = result is None\n",
+          "        self._is_false_ = not (result is not None)\n", kind="twin"),
     ]
 
 
@@ -261,14 +261,15 @@ def c14() -> List[V]:
 
 def c17() -> List[V]:
     return [
-        V("row-per-binding", S, "Concatenate._evaluate__", "        result = {k: HashedValue(v) for k, v in all_values.items()}\n        result.update(sources)\n        yield result",
-          "            result = {k: HashedValue(v) for k, v in all_values.items()}\n            result.update(sources)\n            yield result", rule="CONCAT-ONCE"),
+        V("row-per-binding", S, "Concatenate._evaluate__", "        result = {self._id_: HashedValue(all_values[self._id_])}\n        result.update(sources)\n        yield result",
+          "            result = {self._id_: HashedValue(all_values[self._id_])}\n            result.update(sources)\n            yield result", rule="CONCAT-ONCE"),
         V("no-row-when-empty", S, "Concatenate._evaluate__", "        result.update(sources)\n        yield result",
           "        result.update(sources)\n        if all_values[self._id_]:\n            yield result", rule="CONCAT-ONCE"),
-        V("own-entry-created-in-the-loop-only", S, "Concatenate._evaluate__", "        all_values[self._id_] = []\n", "", rule="CONCAT-ONCE"),
+        V("twin-own-entry-by-defaultdict", S, "Concatenate._evaluate__", "        all_values[self._id_] = []\n", "", kind="twin",
+          note="since the row reads all_values[self._id_] from a defaultdict(list) after the loop, the explicit initialisation is redundant"),
         V("incoming-bindings-aggregated", S, "Concatenate._evaluate__", "        result.update(sources)\n", "", rule="CONCAT-ONCE"),
-        V("twin-row-as-dict-display", S, "Concatenate._evaluate__", "        result = {k: HashedValue(v) for k, v in all_values.items()}\n        result.update(sources)\n        yield result",
-          "        yield {**{k: HashedValue(v) for k, v in all_values.items()}, **sources}", kind="twin"),
+        V("twin-row-as-dict-display", S, "Concatenate._evaluate__", "        result = {self._id_: HashedValue(all_values[self._id_])}\n        result.update(sources)\n        yield result",
+          "        yield {self._id_: HashedValue(all_values[self._id_]), **sources}", kind="twin"),
         V("dedup-accumulation", S, "Concatenate._evaluate__", "                    all_values[self._id_].extend(child_v_unwrapped)",
           "                    if child_v_unwrapped not in all_values[self._id_]:\n                        all_values[self._id_].extend(child_v_unwrapped)",
           rule="CONCAT-ONCE"),
@@ -539,16 +540,13 @@ def _dedup():
         V("dedup-key-dropped", S, "BinaryOperator._required_variables_from_child_", "        if child is self.left:\n            required_vars.update(self.right._unique_variables_)\n",
           "", rule="DEDUP-KEY"),
         V("dedup-parent-dropped", S, "BinaryOperator._required_variables_from_child_",
-          "        if self._parent_:\n            required_vars.update(self._parent_._required_variables_from_child_(self, when_true))\n        return required_vars",
-          "        return required_vars", rule="DEDUP-PARENT"),
+          "            required_vars.update(self._parent_._required_variables_from_child_(self, False if when_true is False else None))\n",
+          "            pass\n", rule="DEDUP-PARENT"),
         V("dedup-parent-dropped-on-or-right", S, "OR._required_variables_from_child_",
           "                    required_vars.update(conc._unique_variables_)\n            if self._parent_:\n                required_vars.update(self._parent_._required_variables_from_child_(self, when_true))\n        return required_vars",
           "                    required_vars.update(conc._unique_variables_)\n        return required_vars", rule="DEDUP-PARENT"),
-        V("twin-dedup-parent-first", S, "BinaryOperator._required_variables_from_child_",
-          "        if when_true or (when_true is None):\n            for conc in self._conclusion_:\n                required_vars.update(conc._unique_variables_)\n"
-          "        if self._parent_:\n            required_vars.update(self._parent_._required_variables_from_child_(self, when_true))\n",
-          "        if self._parent_:\n            required_vars.update(self._parent_._required_variables_from_child_(self, when_true))\n"
-          "        if when_true or (when_true is None):\n            for conc in self._conclusion_:\n                required_vars.update(conc._unique_variables_)\n", kind="twin"),
+        V("twin-dedup-parent-test-explicit", S, "BinaryOperator._required_variables_from_child_", "        if self._parent_:\n            # a false operand",
+          "        if self._parent_ is not None:\n            # a false operand", kind="twin"),
     ]
 
 
@@ -983,3 +981,179 @@ def _twins4():
 
 for _pid, _vs in _twins4().items():
     REGISTRY[_pid] = _merged(REGISTRY[_pid], (lambda vs: (lambda: vs))(_vs))
+
+
+# ---------------------------------------------------------------------------------------------------------------------
+def c15() -> List[V]:
+    return [
+        V("quantifier-keeps-its-own-flag", S, "An._evaluate__", "                self._is_false_ = self._child_._is_false_\n", "", rule="QUANT-TRUTH"),
+        V("quantifier-hands-on-false-rows-unasked", S, "An._evaluate__", "                if self._yield_when_false_ or not self._is_false_:\n                    value.update(sources)",
+          "                if True:\n                    value.update(sources)", rule="QUANT-TRUTH"),
+        V("request-for-false-rows-not-passed-on", S, "An._evaluate__", "values = self._child_._evaluate__(sources, yield_when_false=self._yield_when_false_)",
+          "values = self._child_._evaluate__(sources, yield_when_false=False)", rule="QUANT-TRUTH"),
+        V("an-reexports-another-variable", S, "An._evaluate__", "value.update({self._id_: value[self._var_._id_]})", "value.update({self._id_: value[self._child_._id_]})",
+          rule="QUANT-REEXPORT"),
+        V("the-does-not-reexport", S, "The._evaluate_", "            result[self._id_] = result[self._var_._id_]\n", "            pass\n", rule="QUANT-REEXPORT"),
+        V("selected-quantifier-conditions-dropped", "entity", "_extract_variables_and_expression", "            expression_list.append(result_quantifier)\n", "", rule="QUANT-CONTRIBUTES"),
+        V("quantifier-does-not-delegate", S, "ResultQuantifier.__post_init__", "        self._var_ = self._child_._var_", "        self._var_ = self", rule="QUANT-CONTRIBUTES"),
+        V("attribute-of-quantifier-built-on-its-variable", S, "CanBehaveLikeAVariable.__getattr__", "        return Attribute(self, name)",
+          "        return Attribute(self._var_ if self._var_ is not None else self, name)", rule="HOOK-SELF"),
+        V("descriptor-hides-condition-variables", S, "QueryObjectDescriptor._all_variable_instances_", "        if self._child_:\n            vars.extend(self._child_._all_variable_instances_)",
+          "        elif self._child_:\n            vars.extend(self._child_._all_variable_instances_)", rule="VARS-COMPLETE"),
+        V("twin-reexport-by-item-assignment", S, "An._evaluate__", "value.update({self._id_: value[self._var_._id_]})", "value[self._id_] = value[self._var_._id_]", kind="twin"),
+        V("twin-conditions-joined-by-extend", "entity", "_extract_variables_and_expression", "    expression_list += final_expression_list\n",
+          "    expression_list.extend(final_expression_list)\n", kind="twin"),
+        V("twin-descriptor-vars-by-concatenation", S, "QueryObjectDescriptor._all_variable_instances_",
+          "        vars = []\n        if self.selected_variables:\n            vars.extend(self.selected_variables)\n        if self._child_:\n            vars.extend(self._child_._all_variable_instances_)\n        return vars",
+          "        vars = list(self.selected_variables or [])\n        if self._child_:\n            vars = vars + self._child_._all_variable_instances_\n        return vars", kind="twin"),
+    ]
+
+
+REGISTRY["C15"] = c15
+
+
+# ---------------------------------------------------------------------------------------------------------------------
+# fifth batch: rules added after the third round of seeded changes
+U = "utils"
+PR = "predicate"
+
+
+def _vocab():
+    return [
+        V("for-all-over-the-bare-variable", "entity", "for_all", "    return ForAll(universal_variable, condition)", "    return ForAll(universal_variable._var_, condition)", rule="VOCAB-DENOTATION"),
+        V("twin-for-all-by-keyword", "entity", "for_all", "    return ForAll(universal_variable, condition)", "    return ForAll(left=universal_variable, right=condition)", kind="twin"),
+    ]
+
+
+def _coverage():
+    return [
+        V("unbound-key-counts-as-covered", CD, "SeenSet.check", "assignment[k] == v if k in assignment else False", "assignment.get(k, v) == v", rule="COVERAGE-SUBSUMPTION"),
+        V("unbound-key-is-a-wildcard", CD, "SeenSet.check", "assignment[k] == v if k in assignment else False", "assignment[k] == v if k in assignment else True", rule="COVERAGE-SUBSUMPTION"),
+        V("twin-coverage-test-as-conjunction", CD, "SeenSet.check", "assignment[k] == v if k in assignment else False", "k in assignment and assignment[k] == v", kind="twin"),
+    ]
+
+
+def _cache_operand():
+    return [
+        V("right-cache-stores-left-row", S, "ElseIf._evaluate__", "                            self.update_cache(right_value, self.right_cache)\n                            yield output",
+          "                            self.update_cache(left_value, self.right_cache)\n                            yield output", rule="CACHE-OPERAND-AGREEMENT"),
+        V("right-cache-keyed-by-left", S, "LogicalOperator.__post_init__", "right_vars = self.right._unique_variables_.filter(", "right_vars = self.left._unique_variables_.filter(",
+          rule="CACHE-OPERAND-AGREEMENT"),
+    ]
+
+
+def fifth_c01():
+    return _coverage() + [
+        V("keyword-only-call-runs-bare", S, "Call._apply_mapping_", "        if len(self._args_) > 0 or len(self._kwargs_) > 0:", "        if self._args_:", rule="CALL-FORWARD"),
+        V("twin-call-guard-by-truth", S, "Call._apply_mapping_", "        if len(self._args_) > 0 or len(self._kwargs_) > 0:", "        if self._args_ or self._kwargs_:", kind="twin"),
+        V("predicate-positional-default-dropped", PR, "predicate.wrapper", "if p.kind in (inspect.Parameter.POSITIONAL_ONLY, inspect.Parameter.POSITIONAL_OR_KEYWORD)]",
+          "if p.default == inspect.Parameter.empty]", rule="PRED-ARGS"),
+        V("twin-predicate-names-unfiltered", PR, "predicate.wrapper", "if p.kind in (inspect.Parameter.POSITIONAL_ONLY, inspect.Parameter.POSITIONAL_OR_KEYWORD)]",
+          "if p.kind not in (inspect.Parameter.KEYWORD_ONLY, inspect.Parameter.VAR_KEYWORD, inspect.Parameter.VAR_POSITIONAL)]", kind="twin"),
+    ]
+
+
+def fifth_c02():
+    return _coverage()[:2] + [
+        V("true-operand-reported-as-true-conjunction", S, "BinaryOperator._required_variables_from_child_",
+          "self._parent_._required_variables_from_child_(self, False if when_true is False else None)", "self._parent_._required_variables_from_child_(self, when_true)",
+          rule="DEDUP-TRUTH-UP"),
+        V("twin-own-truth-by-statement", S, "BinaryOperator._required_variables_from_child_",
+          "            required_vars.update(self._parent_._required_variables_from_child_(self, False if when_true is False else None))",
+          "            own_truth = None\n            if when_true is False:\n                own_truth = False\n            required_vars.update(self._parent_._required_variables_from_child_(self, own_truth))", kind="twin"),
+    ]
+
+
+def fifth_c04():
+    return [
+        V("kwargs-flag-cleared-after-the-loop-only", S, "Variable._evaluate_kwargs_expression_",
+          "        finally:\n            # also when the evaluation is abandoned here: the flag says that the kwargs expression is being evaluated.\n            self._evaluating_kwargs_expression_ = False",
+          "        except StopIteration:\n            pass\n        self._evaluating_kwargs_expression_ = False", rule="EVAL-FLAG"),
+        V("union-sides-not-decided-anew", S, "Union._evaluate__", "        self.left_evaluated = False\n        self.right_evaluated = False\n        # constrain left values by available sources",
+          "        # constrain left values by available sources", rule="EVAL-FLAG"),
+        V("cached-requirements-kept", S, "SymbolicExpression._reset_only_my_cache_", "        if clear_cached_requirements is not None:\n            clear_cached_requirements()\n",
+          "", rule="CACHED-POSITION-RESET"),
+        V("inferred-mark-withdrawn-from-all-selected", S, "QueryObjectDescriptor._reset_only_my_cache_", "        for selected_variable in self._variables_inferred_for_this_evaluation_:",
+          "        for selected_variable in self.selected_variables:", rule="EVAL-STATE-RESET"),
+    ]
+
+
+def fifth_c05():
+    return _coverage() + _cache_operand() + [
+        V("conclusion-key-drops-mappings", CS, "ConclusionSelector.update_conclusion", "lambda v: not isinstance(v.value, Literal))", "lambda v: isinstance(v.value, Variable) and not isinstance(v.value, Literal))",
+          rule="KEY-FILTER-KEEPS"),
+    ]
+
+
+def fifth_c06():
+    return [
+        V("no-solution-sticks", S, "The._evaluate_", "        self._is_false_ = result is None\n", "        if result is None:\n            self._is_false_ = True\n", rule="THE-OUTCOME"),
+        V("twin-the-flag-two-branches", S, "The._evaluate_", "        self._is_false_ = result is None\n", "        if result is None:\n            self._is_false_ = True\n        else:\n            self._is_false_ = False\n",
+          kind="twin"),
+    ]
+
+
+def fifth_c10():
+    return _vocab()
+
+
+def fifth_c11():
+    return fifth_c01()[3:] + [
+        V("filter-fills-at-once", "hashed_data", "HashedIterable.filter", "        return HashedIterable(filter(func, self))", "        return HashedIterable(values={v.id_: v for v in self if func(v)})",
+          rule="ROW-FRESH"),
+    ]
+
+
+def fifth_c12():
+    return fifth_c04()[2:] + [fifth_c05()[-1]]
+
+
+def fifth_c13():
+    return [
+        V("none-arguments-dropped", PR, "update_domain_and_kwargs_from_args", "    return domain, kwargs", "    kwargs = {name: value for name, value in kwargs.items() if value is not None}\n    return domain, kwargs",
+          rule="KWARGS-KEPT"),
+        V("twin-kwargs-copied", PR, "update_domain_and_kwargs_from_args", "    return domain, kwargs", "    kwargs = {name: value for name, value in kwargs.items()}\n    return domain, kwargs", kind="twin"),
+    ]
+
+
+def fifth_c16():
+    return [
+        V("flatten-passes-a-flatten-through", "entity", "flatten", "    return Flatten(var)", "    if isinstance(var, Flatten):\n        return var\n    return Flatten(var)", rule="VOCAB-DENOTATION"),
+        fifth_c05()[-1],
+    ]
+
+
+def fifth_c17():
+    return [
+        V("concatenate-unnests-twice", "entity", "concatenate", "    return Concatenate(var)", "    return Concatenate(Flatten(var))", rule="VOCAB-DENOTATION"),
+        V("concatenate-classifies-by-trying", S, "Concatenate._evaluate__",
+          "                    child_v_unwrapped = val.value\n                    if not is_iterable(child_v_unwrapped):\n                        child_v_unwrapped = [child_v_unwrapped]\n                    all_values[self._id_].extend(child_v_unwrapped)",
+          "                    try:\n                        all_values[self._id_].extend(val.value)\n                    except TypeError:\n                        all_values[self._id_].append(val.value)", rule="SCALAR-CLASSIFIER"),
+        V("concatenation-binds-what-it-ranges-over", S, "Concatenate._evaluate__", "        result = {self._id_: HashedValue(all_values[self._id_])}\n", "        result = {k: HashedValue(v) for k, v in all_values.items()}\n", rule="CONCAT-ONCE"),
+    ]
+
+
+def fifth_c18():
+    return fifth_c02()[2:] + [fifth_c11()[-1]]
+
+
+def fifth_c19():
+    return fifth_c13() + fifth_c01()[3:5] + [
+        V("domain-expression-as-condition", S, "Variable._update_domain_", "new_domain = (v[domain._id_] for v in domain._evaluate_as_value_())", "new_domain = (v[domain._id_] for v in domain._evaluate__())",
+          rule="VALUE-TRUTH"),
+    ]
+
+
+def fifth_c20():
+    return _coverage() + [
+        V("wildcard-hashes-to-zero", U, "ALL.__hash__", "        return hash(id(self))", "        return 0", rule="WILDCARD-DISTINCT"),
+        V("insert-skips-known-bindings", CD, "IndexedCache.insert", "        seen_assignment = dict(assignment)\n", "        seen_assignment = dict(assignment)\n        if seen_assignment in self.seen_set.seen:\n            return\n",
+          rule="LEAF-OVERWRITE"),
+        V("twin-wildcard-hash-by-object", U, "ALL.__hash__", "        return hash(id(self))", "        return object.__hash__(self)", kind="twin"),
+    ]
+
+
+_FIFTH = {"C01": fifth_c01, "C02": fifth_c02, "C04": fifth_c04, "C05": fifth_c05, "C06": fifth_c06, "C10": fifth_c10, "C11": fifth_c11, "C12": fifth_c12,
+          "C13": fifth_c13, "C16": fifth_c16, "C17": fifth_c17, "C18": fifth_c18, "C19": fifth_c19, "C20": fifth_c20}
+for _pid, _more in _FIFTH.items():
+    REGISTRY[_pid] = _merged(REGISTRY[_pid], _more)
